@@ -38,6 +38,10 @@ type TimeWheel struct {
 
 	updateNotify chan time.Time
 	stopNotify   chan struct{}
+	// done is closed by Close after the tick goroutine has exited. It releases
+	// Add calls that passed the stopped check and would otherwise wait forever
+	// for somebody to receive from updateNotify.
+	done chan struct{}
 
 	dispatch func(TimeSlot)
 }
@@ -47,6 +51,7 @@ func NewTimeWheel(dispatch func(TimeSlot)) *TimeWheel {
 		slots:        list.New(),
 		stopNotify:   make(chan struct{}),
 		updateNotify: make(chan time.Time),
+		done:         make(chan struct{}),
 		dispatch:     dispatch,
 	}
 	go tw.tick()
@@ -67,7 +72,11 @@ func (tw *TimeWheel) Add(target time.Time, value interface{}) {
 	tw.slots.PushBack(TimeSlot{Time: target, Value: value})
 	tw.slotsLock.Unlock()
 
-	tw.updateNotify <- target
+	select {
+	case tw.updateNotify <- target:
+	case <-tw.done:
+		// Stopped concurrently, the entry is not going to be dispatched.
+	}
 }
 
 func (tw *TimeWheel) Close() {
@@ -83,7 +92,9 @@ func (tw *TimeWheel) Close() {
 
 	tw.stopNotify = nil
 
-	close(tw.updateNotify)
+	// updateNotify is intentionally left open: Add may be about to send on it
+	// and a send on a closed channel panics.
+	close(tw.done)
 }
 
 func (tw *TimeWheel) tick() {
